@@ -11,7 +11,9 @@ public class Num {
   static double d(Value v) {
     if (v instanceof IntValue) return ((IntValue) v).val;
     String s = ((StringValue) v).val.toString();
-    return Double.parseDouble(s);
+    /* "None" / "NA" and anything else that is no number (an implementation under test may log them where a number is due) behave like NaN:
+       every comparison with them is unordered, so the trace is rejected with a mismatch instead of crashing the checker */
+    try { return Double.parseDouble(s); } catch (NumberFormatException e) { return Double.NaN; }
   }
   static Value s(double x) { return new StringValue(Double.toString(x)); }
   public static Value NAdd(Value a, Value b) { return s(d(a) + d(b)); }
